@@ -565,7 +565,7 @@ class InstanceWriteProvider(BaseProvider):
                                                  target_namespace)
         assert self.is_association(creation_class)
 
-        ref_namespaces = set()
+        ref_namespaces = NocaseDict()
         for inst_prop in cim_object.properties.values():
             if inst_prop.type == 'reference':
                 if inst_prop.value is None:
@@ -577,10 +577,10 @@ class InstanceWriteProvider(BaseProvider):
                             "property: {0|A}", inst_prop.value)
 
                 # Add to list if namespace exists and not same as
-                # target_namespace
+                # target_namespace (namespace names are case insensitive)
                 if refprop_namespace:
-                    if refprop_namespace != target_namespace:
-                        ref_namespaces.add(inst_prop.value.namespace)
+                    if refprop_namespace.lower() != target_namespace.lower():
+                        ref_namespaces[refprop_namespace] = True
 
         return list(ref_namespaces)
 
